@@ -268,6 +268,41 @@ def search(payload):
                 break
         if len(fails) >= 5:
             break
+    # the exported FACTORIES against the relation each is named after (the reference above is derived from the returned OBJECT,
+    # so a factory that returns another object than it should would go unnoticed there)
+    import operator as op_
+    nums = [0, 1, 2, 3, 2.5, -1]
+    probes = [-2, -1, 0, 0.5, 1, 1.5, 2, 2.5, 3, 3.5, 4, True, False]
+    fac = []
+    for c in nums:
+        for name, rel in (("eq_p", op_.eq), ("ne_p", op_.ne), ("ge_p", op_.ge), ("gt_p", op_.gt), ("le_p", op_.le), ("lt_p", op_.lt)):
+            fac.append((f"{name}({c!r})", getattr(SP, name)(c), lambda x, rel=rel, c=c: rel(x, c)))
+    for a, b in itertools.product(nums, repeat=2):
+        for name, lo, hi in (("ge_le_p", op_.ge, op_.le), ("ge_lt_p", op_.ge, op_.lt), ("gt_le_p", op_.gt, op_.le), ("gt_lt_p", op_.gt, op_.lt)):
+            fac.append((f"{name}({a!r}, {b!r})", getattr(SP, name)(a, b), lambda x, lo=lo, hi=hi, a=a, b=b: lo(x, a) and hi(x, b)))
+    for sset in ((), (1,), (1, 2), (0, 1, 2, 3), (2.5,)):
+        fac.append((f"in_p{sset!r}", SETP.in_p(*sset), lambda x, sset=sset: x in sset))
+        fac.append((f"not_in_p{sset!r}", SETP.not_in_p(*sset), lambda x, sset=sset: x not in sset))
+    for name, p_, rel in fac:
+        for x in probes:
+            n += 1
+            got = call(p_, x)
+            if got != ("ok", rel(x)):
+                fails.append({"p": name, "returned_object": repr(p_), "x": repr(x), "implementation": repr(got), "reference": repr(("ok", rel(x)))})
+                break
+        if len(fails) >= 5:
+            break
+    sets = [set(), {1}, {1, 2}, {2, 3}, {1, 2, 3}]
+    for v in sets:
+        for name, rel in (("is_subset_p", lambda x, v: x <= v), ("is_real_subset_p", lambda x, v: x < v),
+                          ("is_superset_p", lambda x, v: x >= v), ("is_real_superset_p", lambda x, v: x > v)):
+            p_ = getattr(SETP, name)(set(v))
+            for x in sets + [{4}, {1, 4}]:
+                n += 1
+                got = call(p_, set(x))
+                if got != ("ok", rel(set(x), v)):
+                    fails.append({"p": f"{name}({v!r})", "returned_object": repr(p_), "x": repr(x), "implementation": repr(got), "reference": repr(rel(set(x), v))})
+                    break
     # str tests agree with the str methods
     from predicate import str_predicates as STR
     for name, meth in (("is_alnum_p", str.isalnum), ("is_alpha_p", str.isalpha), ("is_ascii_p", str.isascii), ("is_decimal_p", str.isdecimal),
@@ -289,4 +324,5 @@ def replay(payload):
     return {"fails": True, "input": payload["replay"].get("input")}
 
 
-main({"correspondence": correspondence, "search": search, "replay": replay})
+if __name__ == "__main__":
+    main({"correspondence": correspondence, "search": search, "replay": replay})
